@@ -25,23 +25,33 @@ Definition to_op (o : cop) : op :=
   | CClone h => OClone (Z.to_nat h)
   end.
 
+(* Monomorphic pairs: the case files are large and coqc's cost is per node of
+   the elaborated term, so the case data avoids [prod] and its type arguments. *)
+Inductive zb := ZB (z : Z) (b : bool).      (* a (value, ok) result *)
+Inductive zz := ZZ (k v : Z).               (* a (key, value) pair handed to a Range callback *)
+Definition zb_pair (x : zb) : Z * bool := let 'ZB z b := x in (z, b).
+Definition zz_pair (x : zz) : Z * Z := let 'ZZ k v := x in (k, v).
+
 (* everything the API lets one read from one Bimap, over the universe u *)
 Record obs := Obs {
-  o_fwd : list (Z * bool);     (* GetForward u_i *)
-  o_rev : list (Z * bool);     (* GetReverse u_i *)
+  o_fwd : list zb;             (* GetForward u_i *)
+  o_rev : list zb;             (* GetReverse u_i *)
   o_cf : list bool;            (* ContainsForward u_i *)
   o_cr : list bool;            (* ContainsReverse u_i *)
   o_len : Z;                   (* Len *)
-  o_range : list (Z * Z);      (* Range, callback always true: its arguments in call order *)
+  o_range : list zz;           (* Range, callback always true: its arguments in call order *)
   o_stop : Z;                  (* a second Range whose callback returns false on call number o_stop (>= 1) *)
-  o_stopped : list (Z * Z)     (* ... and the arguments that one received, in call order *)
+  o_stopped : list zz          (* ... and the arguments that one received, in call order *)
 }.
 
+Inductive hobs := H (h : Z) (o : obs).               (* observation of handle h *)
+Inductive cstep := St (o : cop) (after : list hobs).  (* operation, then observations made after it *)
+
 Record case := Case {
-  c_univ : list Z;                          (* keys and values the observers are asked about *)
-  c_nil_len : Z;                            (* Len called on a nil *Bimap *)
-  c_init : list (Z * obs);                  (* observations (handle, obs) before the first operation *)
-  c_steps : list (cop * list (Z * obs))     (* operation, then observations (handle, obs) after it *)
+  c_univ : list Z;             (* keys and values the observers are asked about *)
+  c_nil_len : Z;               (* Len called on a nil *Bimap *)
+  c_init : list hobs;          (* observations before the first operation *)
+  c_steps : list cstep
 }.
 
 Definition zz_eqb : Z * Z -> Z * Z -> bool := prod_eqb Z.eqb Z.eqb.
@@ -58,31 +68,34 @@ Definition always_true : unit -> Z -> Z -> unit * bool := fun _ _ _ => (tt, true
 Definition inb (x : Z) (l : list Z) : bool := existsb (Z.eqb x) l.
 
 Definition check_obs (u : list Z) (b : bimap) (o : obs) : bool :=
-  list_eqb zb_eqb (map (GetForward b) u) (o_fwd o) &&
-  list_eqb zb_eqb (map (GetReverse b) u) (o_rev o) &&
+  list_eqb zb_eqb (map (GetForward b) u) (map zb_pair (o_fwd o)) &&
+  list_eqb zb_eqb (map (GetReverse b) u) (map zb_pair (o_rev o)) &&
   list_eqb Bool.eqb (map (ContainsForward b) u) (o_cf o) &&
   list_eqb Bool.eqb (map (ContainsReverse b) u) (o_cr o) &&
   (Len (Some b) =? o_len o) &&
   (* the order the real Range used must be an enumeration of the keys ... *)
-  (let order := map fst (o_range o) in
+  (let observed := map zz_pair (o_range o) in
+   let order := map fst observed in
    list_eqb Z.eqb (sortZ order) (sortZ (map_keys (forward b))) &&
    (* ... and with that order the model's Range calls back with the same arguments *)
-   list_eqb zz_eqb (fst (Range b order (recording always_true) ([], tt))) (o_range o)) &&
+   list_eqb zz_eqb (fst (Range b order (recording always_true) ([], tt))) observed) &&
   (* second Range: the observed calls, then the keys it did not get to *)
-  (let seen := map fst (o_stopped o) in
+  (let observed := map zz_pair (o_stopped o) in
+   let seen := map fst observed in
    let order := seen ++ List.filter (fun k => negb (inb k seen)) (map_keys (forward b)) in
-   list_eqb zz_eqb (fst (Range b order (recording (stop_after (o_stop o))) ([], 0))) (o_stopped o)).
+   list_eqb zz_eqb (fst (Range b order (recording (stop_after (o_stop o))) ([], 0))) observed).
 
-Definition check_handle_obs (u : list Z) (st : state) (ho : Z * obs) : bool :=
-  match st !! Z.to_nat (fst ho) with
-  | Some b => check_obs u b (snd ho)
+Definition check_handle_obs (u : list Z) (st : state) (ho : hobs) : bool :=
+  let 'H h o := ho in
+  match st !! Z.to_nat h with
+  | Some b => check_obs u b o
   | None => false
   end.
 
-Fixpoint check_steps (u : list Z) (st : state) (steps : list (cop * list (Z * obs))) : bool :=
+Fixpoint check_steps (u : list Z) (st : state) (steps : list cstep) : bool :=
   match steps with
   | [] => true
-  | (o, hos) :: rest =>
+  | St o hos :: rest =>
       match step st (to_op o) with
       | Ok st' => forallb (check_handle_obs u st') hos && check_steps u st' rest
       | Panic _ => false     (* the real code never panics on these histories *)
